@@ -91,6 +91,15 @@ theorem C33_complete (dirs : List Str) (t : VTarget) (deps : List VTarget) (h : 
     checkDeps lf vf dirs t deps = none :=
   (checkDeps_none_iff lf vf dirs t deps).mpr fun d hd => codeOK_of_depOK dirs t d (h d hd)
 
+-- non-vacuity of `C33_complete`: a hidden sub-target of //a/b:x depending on a library visible to //a/... and on a
+-- test_only PUBLIC helper while itself being a test
+example : ∀ d ∈ [(⟨⟨"lib".toList, "l".toList, []⟩, [⟨"a".toList, dots, []⟩], false, false⟩ : VTarget),
+      ⟨⟨"testing".toList, "h".toList, []⟩, [publicLabel], true, false⟩],
+    DepOK [] ⟨⟨"a/b".toList, "_x#y".toList, []⟩, [], false, true⟩ d := by
+  intro d hd; simp at hd; rcases hd with rfl | rfl
+  · exact ⟨by decide, Or.inl rfl⟩
+  · exact ⟨by decide, Or.inr (Or.inl rfl)⟩
+
 /-- The property, for dependencies within one repository: `CheckDependencyVisibility` returns no error
     exactly when every declared dependency is visible and respects test_only.
     Full statement (false on the pinned tree across repositories, see the witnesses):
